@@ -29,6 +29,14 @@ CHECKS = {
          "All conda/condu clause lists of 1-3 clauses and onceo bodies whose heads/rests are scripted (0/1/many answers, lazily produced, infinite, diverging) are compared with the soft-cut / committed-choice semantics; the head's first answer in engine order is obtained from the engine by running the head alone.",
          "Heads are leaves or two-leaf conde/conj/disj trees; matcha/matchu share Conda/Condu::from_conjunctions (their surface form is covered by C13).",
          "4/C08"),
+ "C16": ("bounded-exhaustive FD programs x deviation-bounded hash-order schedules vs brute force (E3 x E2)",
+         "Every program of three FD tiers (one constraint: all kinds x all operand patterns/aliasings/constants x all domain assignments x all statement orders; two-three constraints mixed with ==, pre-bound and fully ground operands; answers shaped as lists/compounds, hidden variables, conde) is run under every schedule of the hash-ordered iterations with <= d deviations plus all-reversed; every answer must be a brute-force solution.",
+         "Domains inside [-2, 3]; d=1 quick (T1) / 2; well-formed programs only (every FD operand has a domain or is an integer).",
+         "4/C16"),
+ "C17": ("bounded-exhaustive FD programs x deviation-bounded hash-order schedules vs brute force (E3 x E2)",
+         "Same programs and schedules as C16; the multiset of query-variable tuples must equal the brute-force solutions projected onto the query variables, each exactly once (including list-, improper-list- and compound-shaped answers and hidden FD variables).",
+         "As C16.",
+         "4/C16-C17"),
  "C18": ("explicit-state BFS over FiniteDomain representations, lock-step BTreeSet model (E1)",
          "Every representation reachable from all intervals / From<Vec> inputs / sparse sets of a small window (and of windows at the isize extremes) under all operations and all window predicates is compared with a BTreeSet model on every transition and every observer; exhaustive within the window.",
          "Model is BTreeSet<i64>; window width 7 (quick) / 9 (thorough); full-width interval only through O(1) operations.",
